@@ -353,7 +353,7 @@ def finding_still_fails(k):
 
 
 LEVEL_TEXT = ('Theorems over ALL path texts and ALL URI values (no bound on length or segment count): abspath leaves no dot segment and no slash run, abspath and normalize are idempotent, '
-	'scheme/host are lower-cased, the default port of the scheme is the effective port after normalisation whatever order the components were assigned in (normalize_port_explicit), '
+	'scheme/host are lower-cased, the default port of the scheme is the effective port after normalisation whatever order the components were assigned in, and it is the port component of the normalised URI, i.e. what == compares (normalize_port_explicit, normalize_port_component; the latter since the F64 repair), '
 	'== is an equivalence on URIs with a scheme and equals equality of normalised tuples, and for every path that begins with a slash abspath() is remove_dot_segments of RFC 3986 5.2.4 applied to the path with its slash runs collapsed (abspath_eq_rfc, normalize_path_rfc). '
 	'Tied by correspondence on the exhaustive path enumeration, on URI texts and on URIs built from components.')
 LEVEL_NOTE = ('Trusted: Lean kernel; extract.py/correspondence; UTF-8 text-as-octets convention; re.sub modelled by collapse; Spec/Rfc3986.lean is a hand transcription of the RFC pseudo-code, compared with a second one in Python.')
